@@ -76,7 +76,9 @@ static void tm_fire(struct tmodel *m) { m->armed = 0; m->t->handler(m->t->handle
 #endif /* SCN_REAL_TIMERS */
 
 /* ---- recording transport */
+#ifndef MAXLOG
 #define MAXLOG 10
+#endif
 #define K_EVENT 1
 #define K_RESPONSE 2
 #define K_ROUTED 3
